@@ -502,6 +502,9 @@ def make_part(rng, spec):
     desc = [(n, t) for (n, t) in desc if not ((n.endswith("_y") and ndim < 2) or (n.endswith("_z") and ndim < 3))]
     if len(desc) < 2:
         desc = [("mass", "d"), ("identity", "i")]
+    if rng.random() < 0.35:
+        # the on-disk type is a property of the file, not of the name: e.g. masses stored as integers
+        desc = [(n, str(rng.choice(["d", "i", "b"])) if rng.random() < 0.4 else t) for n, t in desc]
     mode = rng.choice(["some", "some", "zero-some", "all-zero", "many"])
     counts = []
     for c in range(spec["ncpu"]):
